@@ -270,12 +270,16 @@ func (wr *strictResponseWrapper) Header() http.Header {
 }
 
 func (wr *strictResponseWrapper) flushBodyContents() error {
-	wr.w.WriteHeader(wr.status)
+	wr.w.WriteHeader(wr.statusCode())
 	_, err := wr.w.Write(wr.body.Bytes())
 	return err
 }
 
 func (wr *strictResponseWrapper) statusCode() int {
+	if !wr.headerWritten {
+		// A handler that returns without writing anything sends an implicit 200.
+		return http.StatusOK
+	}
 	return wr.status
 }
 
